@@ -464,6 +464,17 @@ func (g *c08RaftCtl) classifyStale(run *c08Run, tr *c08Truth, a *c08Anomaly) (st
 	if f7 && len(window) > 0 {
 		return "C08-F7-raft-stale-txn-commits-fsm-lag", detail
 	}
+	// Third signature (open known finding): the stale observation is a listing made after the transaction's
+	// own delete of a key under a sub-folder of the listed prefix, so the folder entry was gone from its
+	// view; the folder-collapsed listing of the storage (what listPageInner gives and the shipped
+	// verification covers) is the same at transaction start and at commit; inside the window somebody wrote
+	// another key in that very sub-folder, which keeps the folder entry alive at commit time; and the
+	// tracker was complete (nothing trimmed), i.e. the verification ran and passed.
+	if ob.Kind == "list" || ob.Kind == "page" {
+		if cl, ok := g.folderCollapse(tr, rt, ce, commit, snap, ob, script[:a.ObsIdx], detail); ok {
+			return cl, detail
+		}
+	}
 	// Second signature (disagreement found by this monitor): the transaction saw a *complete* listing
 	// (iteration reached the end of the prefix), the verification was really performed (not the F7 fast
 	// path), and at commit time the store lists exactly what the transaction saw in storage plus entries
@@ -579,4 +590,100 @@ func TestVerif_C08_CacheInmem(t *testing.T)       { c08ReplayStub(t, "c08-cache-
 func TestVerif_C08_ViewBarrierInmem(t *testing.T) { c08ReplayStub(t, "c08-view-barrier-inmem") }
 func TestVerif_C08_ViewBarrierCacheInmem(t *testing.T) {
 	c08ReplayStub(t, "c08-view-barrier-cache-inmem")
+}
+
+func (g *c08RaftCtl) folderCollapse(tr *c08Truth, rt *c08RaftTruth, ce *c08LogEntry, commit *c08Rec, snap *c08Snap, ob c08Obs, before []c08Obs, detail map[string]any) (string, bool) {
+	if tr.StateAt == nil {
+		return "", false
+	}
+	lim := ob.Limit
+	if ob.Kind == "list" {
+		lim = -1
+	}
+	atStart, atCommit := tr.StateAt(ce.Start), tr.StateAt(commit.Pos-1)
+	base, now := c08RefList(atStart, ob.Key, ob.After, lim), c08RefList(atCommit, ob.Key, ob.After, lim)
+	detail["listing_in_storage_at_txn_start"], detail["listing_in_storage_at_commit"] = base, now
+	if !c08SameList(base, now) {
+		return "", false
+	}
+	// the transaction's own view at commit time: its earlier writes over the store at commit
+	over := c08Copy(atCommit)
+	deleted := map[string]bool{}
+	for _, o := range before {
+		switch o.Kind {
+		case "put":
+			over[o.Key] = o.Val
+			delete(deleted, o.Key)
+		case "del":
+			delete(over, o.Key)
+			deleted[o.Key] = true
+		}
+	}
+	want := c08RefList(over, ob.Key, ob.After, lim)
+	// what it saw lacks exactly one or more folder entries that the serial execution would show
+	seen := map[string]bool{}
+	for _, e := range ob.List {
+		seen[e] = true
+	}
+	var missing []string
+	for _, e := range want {
+		if !seen[e] {
+			missing = append(missing, e)
+		}
+	}
+	if len(missing) == 0 || len(want)-len(missing) != len(ob.List) {
+		return "", false
+	}
+	for _, e := range missing {
+		if !strings.HasSuffix(e, "/") {
+			return "", false
+		}
+		folder := ob.Key + e
+		own := false // the transaction deleted a key of that folder before listing
+		for k := range deleted {
+			own = own || strings.HasPrefix(k, folder)
+		}
+		sibling := false // and somebody else wrote another key of that folder inside the window
+		for _, idx := range rt.Order {
+			le := rt.Entries[idx]
+			if idx <= ce.Start || idx >= commit.Pos || !le.Wrote {
+				continue
+			}
+			keys := append([]string{}, le.Dels...)
+			if le.Kind == "put" || le.Kind == "del" {
+				keys = append(keys, le.Key)
+			}
+			for k := range le.Puts {
+				keys = append(keys, k)
+			}
+			for _, k := range keys {
+				if strings.HasPrefix(k, folder) && !deleted[k] {
+					sibling = true
+				}
+			}
+		}
+		if !own || !sibling {
+			return "", false
+		}
+	}
+	// tracker complete: every touching entry is tracked (or belongs to the transaction's own batch)
+	for _, w := range detail["overwriting_entries"].([]map[string]any) {
+		if !(w["in_tracker"].(bool) || !w["applied_before_batch"].(bool)) || w["trimmed_by_entry"].(uint64) != 0 {
+			return "", false
+		}
+	}
+	detail["folder_entries_missing_from_the_transactions_view"] = missing
+	// In every reproduction so far an earlier listing of the same prefix (made before the own delete) holds
+	// the one verification slot for (prefix, after); a transaction that lists only after its delete ships the
+	// deleted key's full name instead of the folder entry and always conflicts.
+	earlier := false
+	seenDel := false
+	for _, o := range before {
+		seenDel = seenDel || o.Kind == "del"
+		if !seenDel && (o.Kind == "list" || o.Kind == "page") && o.Key == ob.Key && o.After == ob.After {
+			earlier = true
+		}
+	}
+	detail["earlier_listing_of_same_prefix_before_own_delete"] = earlier
+	return "C08-raft-txn-list-folder-collapse-hides-sibling-change", true
 }
